@@ -253,6 +253,9 @@ func (c *Checker[A]) Run(t *rapid.T, a A) {
 	}
 	S(c.prop, "history-walks").Eval(1)
 	h := histArgs[A]{Seq: seq}
+	if m := int(sel>>8) % 8; m >= 1 && m <= 6 {
+		h.Mode = m
+	}
 	if v := c.evalHistory(h); v != nil {
 		writeFailFile(c.prop, c.name+".history", h, v)
 		t.Fatalf("%s.history: %s", c.name, v.Msg)
